@@ -53,6 +53,12 @@ pub fn run(t: &[&str]) -> String {
         // ---------------------------------------------------------------- entry buffers, tree re-rooting,
         // iterator clones, abbreviation caches (harness/src/reuse.rs)
         "c20.buf" | "c20.tree" | "c20.clone" | "c20.cache" => crate::reuse::run(t),
+        // ---------------------------------------------------------------- the stateful side of unit.rs
+        // against Model/EntryBuf.v (reused entry buffer, cursor cache + clones, tree re-rooting)
+        "c20.bufm" => entrybuf::bufm(t),
+        "c20.curm" => entrybuf::curm(t),
+        "c20.treem" => entrybuf::treem(t),
+        "c20.linem" => entrybuf::linem(t),
         // ---------------------------------------------------------------- unwind context
         "c20.hist" | "c20.histm" => {
             let bytes = hex(t[5]);
@@ -100,5 +106,358 @@ pub fn run(t: &[&str]) -> String {
             }
         }
         _ => format!("unknown-stream {}", t[0]),
+    }
+}
+
+/// Streams c20.bufm / c20.curm / c20.treem: one reused DebuggingInformationEntry buffer, several cursors
+/// with clones, one re-rooted EntriesTree — step by step, printed for comparison with Model/EntryBuf.v.
+/// Line format: see ocaml/s_c20e.ml.
+mod entrybuf {
+    use crate::c03::show;
+    use crate::util::*;
+    use gimli::{
+        Abbreviations, DebugAbbrev, DebugInfo, DebugTypes, DebuggingInformationEntry, EndianSlice, EntriesCursor,
+        EntriesRaw, EntriesTreeNode, RunTimeEndian, UnitHeader, UnitOffset,
+    };
+    type R<'a> = EndianSlice<'a, RunTimeEndian>;
+
+    /// the buffer in full, whatever it holds
+    fn show_buf(e: &DebuggingInformationEntry<R>) -> String {
+        let attrs: Vec<String> = e
+            .attrs()
+            .iter()
+            .map(|a| format!("{}/{}={}", a.name().0, a.form().0, show(&a.raw_value())))
+            .collect();
+        format!(
+            "{}:{}:{}:{}:{}",
+            e.offset().0,
+            e.depth(),
+            e.tag().0,
+            if e.has_children() { 1 } else { 0 },
+            if attrs.is_empty() { "-".to_string() } else { attrs.join(",") }
+        )
+    }
+
+    fn finish(toks: Vec<String>) -> String {
+        format!("ok {}", if toks.is_empty() { "-".to_string() } else { toks.join(" ; ") })
+    }
+
+    /// first unit header of the section + its abbreviations; Err = the whole result line
+    fn setup<'a>(t: &[&str], info: &'a [u8], abb: &'a [u8]) -> Result<(UnitHeader<R<'a>>, Abbreviations), String> {
+        let en = endian(t[1]);
+        let h = if t[2] == "1" {
+            match DebugTypes::new(info, en).units().next() {
+                Ok(Some(h)) => h,
+                Ok(None) => return Err("nounit".into()),
+                Err(e) => return Err(err(&e)),
+            }
+        } else {
+            match DebugInfo::new(info, en).units().next() {
+                Ok(Some(h)) => h,
+                Ok(None) => return Err("nounit".into()),
+                Err(e) => return Err(err(&e)),
+            }
+        };
+        let da = DebugAbbrev::new(abb, en);
+        match h.abbreviations(&da) {
+            Ok(tbl) => Ok((h, tbl)),
+            Err(e) => Err(format!("abbrev!{}", errname(&e))),
+        }
+    }
+
+    fn obs(r: &EntriesRaw<R>) -> String {
+        format!("{},{},{}", r.next_offset().0, r.next_depth(), if r.is_empty() { 1 } else { 0 })
+    }
+
+    pub fn bufm(t: &[&str]) -> String {
+        let (info, abb) = (hex(t[3]), hex(t[4]));
+        let (h, tbl) = match setup(t, &info, &abb) {
+            Ok(x) => x,
+            Err(s) => return s,
+        };
+        let mut rd = match h.entries_raw(&tbl, None) {
+            Ok(r) => r,
+            Err(e) => return format!("start!{}", errname(&e)),
+        };
+        let mut broken = false;
+        // THE reused buffer
+        let mut buf = DebuggingInformationEntry::null();
+        let mut out = Vec::new();
+        let mut k = 5;
+        while k < t.len() {
+            match t[k] {
+                "1" => {
+                    k += 1;
+                    if broken {
+                        out.push("undef".to_string());
+                        continue;
+                    }
+                    // oracle: the same read into a fresh null buffer gives the same result and, when it
+                    // succeeds, the same entry
+                    let mut rd2 = rd.clone();
+                    let mut fresh = DebuggingInformationEntry::null();
+                    let r2 = rd2.read_entry(&mut fresh);
+                    let r1 = rd.read_entry(&mut buf);
+                    match (&r1, &r2) {
+                        (Ok(a), Ok(b)) => {
+                            if a != b || show_buf(&buf) != show_buf(&fresh) || obs(&rd) != obs(&rd2) {
+                                return format!("buffer-mismatch reused={} fresh={}", show_buf(&buf), show_buf(&fresh));
+                            }
+                        }
+                        (Err(a), Err(b)) => {
+                            if errname(a) != errname(b) {
+                                return "buffer-mismatch error".into();
+                            }
+                        }
+                        _ => return "buffer-mismatch result-class".into(),
+                    }
+                    match r1 {
+                        Ok(b) => out.push(format!("R:{}:{}:{}", if b { 1 } else { 0 }, show_buf(&buf), obs(&rd))),
+                        Err(e) => {
+                            broken = true;
+                            out.push(format!("R:!{}:{}:-", errname(&e), show_buf(&buf)))
+                        }
+                    }
+                }
+                "2" => {
+                    k += 1;
+                    if broken {
+                        out.push("undef".to_string());
+                        continue;
+                    }
+                    match rd.read_abbreviation() {
+                        Ok(None) => out.push(format!("S:null:{}", obs(&rd))),
+                        Ok(Some(a)) => match rd.skip_attributes(a.attributes()) {
+                            Ok(()) => out.push(format!("S:{}:{}", a.tag().0, obs(&rd))),
+                            Err(e) => {
+                                broken = true;
+                                out.push(format!("S:!{}:-", errname(&e)))
+                            }
+                        },
+                        Err(e) => {
+                            broken = true;
+                            out.push(format!("S:!{}:-", errname(&e)))
+                        }
+                    }
+                }
+                _ => {
+                    let off = u(t[k + 1]) as usize;
+                    k += 2;
+                    match h.entries_raw(&tbl, Some(UnitOffset(off))) {
+                        Ok(r) => {
+                            rd = r;
+                            broken = false;
+                            out.push(format!("O:ok:{}", obs(&rd)))
+                        }
+                        Err(e) => out.push(format!(
+                            "O:!{}:{}",
+                            errname(&e),
+                            if broken { "-".to_string() } else { obs(&rd) }
+                        )),
+                    }
+                }
+            }
+        }
+        finish(out)
+    }
+
+    fn show_cur(res: &str, c: &EntriesCursor<R>) -> String {
+        format!(
+            "{}:{}:{}:{}:{}:{}",
+            res,
+            match c.current() {
+                Some(e) => show_buf(e),
+                None => "none".to_string(),
+            },
+            c.offset().0,
+            c.depth(),
+            c.next_offset().0,
+            c.next_depth()
+        )
+    }
+
+    pub fn curm(t: &[&str]) -> String {
+        let (info, abb) = (hex(t[3]), hex(t[4]));
+        let (h, tbl) = match setup(t, &info, &abb) {
+            Ok(x) => x,
+            Err(s) => return s,
+        };
+        let mut cs: Vec<EntriesCursor<R>> = vec![h.entries(&tbl)];
+        let mut out = Vec::new();
+        let mut k = 5;
+        while k + 1 < t.len() {
+            let i: usize = t[k + 1].parse().unwrap();
+            let op = t[k];
+            k += 2;
+            if i >= cs.len() {
+                out.push("D".to_string());
+                continue;
+            }
+            if op == "4" {
+                let c = cs[i].clone();
+                cs.push(c);
+                out.push("D".to_string());
+                continue;
+            }
+            let res = match op {
+                "1" => cs[i].next_entry().map(|b| b),
+                "2" => cs[i].next_dfs().map(|o| o.is_some()),
+                _ => cs[i].next_sibling().map(|o| o.is_some()),
+            };
+            let rs = match res {
+                Ok(b) => (if b { "1" } else { "0" }).to_string(),
+                Err(e) => format!("!{}", errname(&e)),
+            };
+            out.push(show_cur(&rs, &cs[i]));
+        }
+        finish(out)
+    }
+
+    /// the driver of Model/EntryBuf.v walk_kids: emit, spend budget, maybe descend
+    fn walk(node: EntriesTreeNode<R>, k: u64, budget: &mut u64, out: &mut Vec<String>) -> bool {
+        let (off, _) = (node.entry().offset().0 as u64, ());
+        out.push(show_buf(node.entry()));
+        if *budget <= 1 {
+            *budget = 0;
+            return false;
+        }
+        *budget -= 1;
+        if !(k == 0 || off % k != 0) {
+            return true;
+        }
+        let mut ch = node.children();
+        loop {
+            match ch.next() {
+                Ok(Some(c)) => {
+                    if !walk(c, k, budget, out) {
+                        return false;
+                    }
+                }
+                Ok(None) => return true,
+                Err(e) => {
+                    out.push(format!("!{}", errname(&e)));
+                    return false;
+                }
+            }
+        }
+    }
+
+    fn line_row(r: &gimli::LineRow) -> String {
+        format!(
+            "{},{},{},{},{},{}{}{}{}{},{},{}",
+            r.address(),
+            r.op_index(),
+            r.file_index(),
+            r.line().map(|l| l.get()).unwrap_or(0),
+            match r.column() {
+                gimli::ColumnType::LeftEdge => 0,
+                gimli::ColumnType::Column(c) => c.get(),
+            },
+            r.is_stmt() as u8,
+            r.basic_block() as u8,
+            r.end_sequence() as u8,
+            r.prologue_end() as u8,
+            r.epilogue_begin() as u8,
+            r.isa(),
+            r.discriminator()
+        )
+    }
+
+    fn drain_rows<'a>(r: &mut gimli::LineRows<R<'a>, gimli::IncompleteLineProgram<R<'a>>>, cap: usize) -> Vec<String> {
+        let mut v = Vec::new();
+        let mut calls = 0;
+        loop {
+            calls += 1;
+            if calls > cap {
+                v.push("termination-mismatch".into());
+                return v;
+            }
+            match r.next_row() {
+                Ok(Some((_, row))) => v.push(line_row(row)),
+                Ok(None) => {
+                    v.push("end".into());
+                    return v;
+                }
+                Err(e) => v.push(format!("err:{}", errname(&e))),
+            }
+        }
+    }
+
+    /// c20.linem <be> <asz> <unit hex> <k>: k calls, clone, drain the clone, drain the original
+    pub fn linem(t: &[&str]) -> String {
+        let en = endian(t[1]);
+        let asz = u(t[2]) as u8;
+        let bytes = hex(t[3]);
+        let k = u(t[4]) as usize;
+        let dl = gimli::DebugLine::new(&bytes, en);
+        let prog = match dl.program(gimli::DebugLineOffset(0), asz, None, None) {
+            Ok(p) => p,
+            Err(e) => return err(&e),
+        };
+        let mut rows = prog.rows();
+        let mut out = vec!["ok".to_string()];
+        let mut ended = false;
+        for _ in 0..k {
+            match rows.next_row() {
+                Ok(Some((_, r))) => out.push(line_row(r)),
+                Ok(None) => {
+                    ended = true;
+                    break;
+                }
+                Err(e) => out.push(format!("err:{}", errname(&e))),
+            }
+        }
+        let _ = ended;
+        let mut copy = rows.clone();
+        let cap = bytes.len() + 2;
+        let a = drain_rows(&mut copy, cap);
+        let b = drain_rows(&mut rows, cap);
+        if a != b {
+            return format!("clone-mismatch clone=[{}] original=[{}]", a.join(" "), b.join(" "));
+        }
+        out.push("|".into());
+        out.extend(a);
+        out.push("|".into());
+        out.extend(b);
+        out.join(" ")
+    }
+
+    pub fn treem(t: &[&str]) -> String {
+        let (info, abb) = (hex(t[3]), hex(t[4]));
+        let (h, tbl) = match setup(t, &info, &abb) {
+            Ok(x) => x,
+            Err(s) => return s,
+        };
+        // THE reused tree
+        let mut tree = match h.entries_tree(&tbl, None) {
+            Ok(x) => x,
+            Err(e) => return format!("start!{}", errname(&e)),
+        };
+        let mut out = Vec::new();
+        let mut k = 5;
+        while k + 1 < t.len() {
+            let (budget, sel) = (u(t[k]), u(t[k + 1]));
+            k += 2;
+            let run = |tr: &mut gimli::EntriesTree<R>| -> String {
+                let mut evs = Vec::new();
+                let mut b = budget;
+                match tr.root() {
+                    Ok(node) => {
+                        walk(node, sel, &mut b, &mut evs);
+                    }
+                    Err(e) => evs.push(format!("!{}", errname(&e))),
+                }
+                evs.join(",")
+            };
+            let reused = run(&mut tree);
+            // oracle: a tree fresh from entries_tree walks the same
+            let mut fresh = h.entries_tree(&tbl, None).unwrap();
+            let want = run(&mut fresh);
+            if reused != want {
+                return format!("reroot-mismatch reused=[{}] fresh=[{}]", reused, want);
+            }
+            out.push(reused);
+        }
+        finish(out)
     }
 }
